@@ -71,7 +71,7 @@ GROUPS = ['', '', 'g', 'g:h', 'data', 'xg']
 NAMES = ['up', 'down', 'a', 'b', 'mid', 'x_y', 'train', 'train_x', 'na', 'n']
 NSS = ['n', 'm', 'xn', 'train', 'a', 'ns1']
 KINDS_P = ['json', 'json', 'json', 'jsontuple', 'numpy', 'pandas', 'generated', 'listnp', 'dir', 'continues', 'memory', 'memfalsy']
-PNAMES = ['pa', 'pb', 'pc', 'pd', 'x', 'lr']
+PNAMES = ['pa', 'pb', 'pc', 'pd', 'x', 'lr', 'lr2', 'x_2']       # incl. names that are prefixes of one another: `lr=…` / `lr2=…` sort by NAME
 
 
 def gen_params(rng, n, alphabet=None, keys=None, simple=False):
